@@ -73,6 +73,8 @@ pub fn vocab(code: &str) -> Vocab {
         }
     }
     for (l, ws) in EXTRA { if *l == code { for w in *ws { words.push(w.to_string()); } } }
+    // characters whose lower-case form is longer than one character (U+0130), ligatures, capital eszett, title-case digraphs
+    for w in ["İstanbul", "DİYAR", "ﬁlter", "GROẞ", "ǅungla", "H₂O", "A۵۲s", "x²"] { words.push(w.to_string()); }
     if words.len() < 30 { for (l, ws) in EXTRA { if *l == "none" { for w in *ws { words.push(w.to_string()); } } } }
     let mut letters: Vec<char> = if code == "ru" { "абвгдежзийклмнопрстуфхцчшщъыьэюя".chars().collect() } else { "abcdefghijklmnopqrstuvwxyz".chars().collect() };
     for a in &accents { if a.is_lowercase() && !letters.contains(a) { letters.push(*a); } }
@@ -253,6 +255,11 @@ pub fn tok_random(code: &str, r: &mut Rng, n: usize, per_case: usize) -> Vec<Cas
         }
     }
     if !ops.is_empty() { cases.push(Case { name: format!("tok-lone-mark-{}", code), lang: code.to_string(), stream: "AC-tok-lone-mark", ops: std::mem::take(&mut ops) }); }
+    // characters whose lower-case or upper-case form has another length, non-ASCII digits, ligatures
+    for w in ["İstanbul", "İ", "aİb", "İİ", "i̇", "ﬁ", "ﬁlter", "ẞ", "GROẞE", "ǅ", "ŉ", "ǰ", "ΐ", "H₂O", "₂", "x²", "A۵۲s", "２x", "Ⅻ", "ⅻ", "ß", "ſ", "K"] {
+        for s in [w.to_string(), format!("ab {} cd", w), format!("{}a", w)] { ops.push(Op::TokQ(s.clone())); ops.push(Op::TokR(s)); }
+    }
+    cases.push(Case { name: format!("tok-special-{}", code), lang: code.to_string(), stream: "AC-tok-special-case-forms", ops: std::mem::take(&mut ops) });
     for i in 0..n {
         let s = match r.below(4) { 0 => { let k = r.range(0, 12); random_unicode(r, k) } _ => v.title(r) };
         ops.push(Op::TokQ(s.clone()));
